@@ -429,6 +429,12 @@ Definition c_weights : str := [119; 101; 105; 103; 104; 116; 115].
 Definition c_duplicates : str := [100; 117; 112; 108; 105; 99; 97; 116; 101; 115].
 Definition c_tokens : str := [116; 111; 107; 101; 110; 115].
 Definition c_ipa : str := [105; 112; 97].
+Definition c_cogid : str := [99; 111; 103; 105; 100].
+Definition c_alignment : str := [97; 108; 105; 103; 110; 109; 101; 110; 116].
+Definition c_scaid : str := [115; 99; 97; 105; 100].
+Definition c_editid : str := [101; 100; 105; 116; 105; 100].
+Definition c_turchinid : str := [116; 117; 114; 99; 104; 105; 110; 105; 100].
+Definition c_lexstatid : str := [108; 101; 120; 115; 116; 97; 116; 105; 100].
 
 Definition derived_columns : list (str * kind) :=
   [ (c_tokens, TList);          (* ipa2tokens(ipa): list of str (when only IPA is given) *)
@@ -439,7 +445,11 @@ Definition derived_columns : list (str * kind) :=
     (c_numbers, TList);         (* ['1.A.C', ...] *)
     (c_weights, TFloats);       (* prosodic_weights(prostring) *)
     (c_ipa, TStr);              (* ''.join(tokens) (when only tokens are given) *)
-    (c_duplicates, TInt) ].     (* 0 / 1 *)
+    (c_duplicates, TInt);       (* 0 / 1 *)
+    (* cognate-id columns written by LexStat.cluster (default ref = method + 'id') *)
+    (c_scaid, TInt); (c_editid, TInt); (c_turchinid, TInt); (c_lexstatid, TInt);
+    (* Alignments: the aligned rows written by align() / _msa2col *)
+    (c_alignment, TList) ].
 
 (* classes that accept every value of the type they produce (the split(" ") variants do not: they
    never produce an empty list) *)
